@@ -786,7 +786,7 @@ def get_doseid(model: Model):
             continue
         maxind = max(doseind)
         for index in obsind:
-            if 0 in groupind:  # This is the first dose
+            if df.loc[index, 'DOSEID'] <= 1:  # No previous dose
                 continue
             if maxind > index:  # Dose record is after the observation
                 continue
